@@ -239,7 +239,7 @@ func genBound(t *rapid.T, label string) boundSpec {
 }
 
 func TestC13_window(t *testing.T) {
-	runRapid(t, "C13/window", 12000, func(t *rapid.T) windowCase {
+	runRapid(t, "C13/window", 30000, func(t *rapid.T) windowCase {
 		c := windowCase{searchCase: genSearchCase(t, searchConfigs), A: genBound(t, "a"), B: genBound(t, "b")}
 		if c.Depth > 4 {
 			c.Depth = 4 // smaller trees than C03: several windows per root matter more than depth
